@@ -98,7 +98,14 @@ def check(mod, prop, tier, seed, no_build=False):
     replay_path = None
     if new_violations:
         status = 1
-        cases = sorted(new_violations, key=lambda v: len(json.dumps(v['case'], default=str)))[:5]
+        seen, cases = set(), []
+        for v in sorted(new_violations, key=lambda v: len(json.dumps(v['case'], default=str))):
+            key = json.dumps(v['case'], sort_keys=True, default=str)
+            if key not in seen:                 # the smallest distinct failing inputs
+                seen.add(key)
+                cases.append(v)
+            if len(cases) == 5:
+                break
         replay_path = common.write_replay(prop, {
             'property': prop, 'kind': 'failing-input', 'seed': seed, 'tier': tier,
             'cases': cases, 'tie_failures': tie.failures,
